@@ -9,7 +9,8 @@ observable state; closing and reopening the file is the identity on it (tied by 
 
 The model follows the code that is in /repo now, i.e. after the `fix:` commits for
 `write_column(index=0)`, the chunked rebuild in `append_column`, the units length, `read_cell` by
-name, duplicate frame names and conversion-before-creation in `create_data_frame`.
+name, duplicate frame names, conversion-before-creation in `create_data_frame` and the all-or-nothing
+`write_column`.
 
 Modelled domain of cells: Python `int`, `float` (finite, as the exact rational it denotes), `bool`, `str`.
 `conv` is NumPy's conversion of such a scalar into a field of the column type followed by h5py's
@@ -423,8 +424,8 @@ def writeRowFlat (f : Frame) (row : List Val) (idx : List Int) : Frame × Option
   | [] => (f, some .indexError)
   | _ => if idx.length ≠ 1 then (f, some .typeError) else writeRows f [row] idx
 
-/-- the loop of `write_column`: row i gets its field replaced and is written back, one row at a time;
-    a cell that cannot be converted stops the loop with the earlier rows already written -/
+/-- the conversion loop of `write_column` over an in-memory copy of the table: row i gets its field replaced;
+    a cell that cannot be converted stops the loop (nothing has been written to the file at that point) -/
 def writeColLoop (t : ColType) (c : Nat) : List Row → List Val → List Row × Option Err
   | r :: rs, v :: vs =>
     match conv t v with
@@ -459,8 +460,11 @@ def writeColumn (f : Frame) (col : List Val) (index : Option Int) (name : Option
       | some c => match f.cols[c]? with
         | none => (f, some .valueError)
         | some ct =>
-          let p := writeColLoop ct.2 c f.rows col
-          ({ f with rows := p.1 }, p.2)
+          -- every cell is converted first; the rows are written afterwards and put back if storing fails
+          -- (h5py's refusal of a non-string cell for a text column), so a refused column changes nothing
+          match writeColLoop ct.2 c f.rows col with
+          | (rows', none) => ({ f with rows := rows' }, none)
+          | (_, some e) => (f, some e)
 
 /-- `write_cell(cell, position=[row, col])` -/
 def writeCellPos (f : Frame) (cell : Val) (pos : List Int) : Frame × Option Err :=
